@@ -412,6 +412,11 @@ Definition parse_type (def : bytes) : res type_result :=
                            end
                        end) (cn_params last)
                   else Ok []) (fun colls =>
+            (* count == 0: nothing but the collections parameter -- a custom type, like an unparsable definition
+               (fix typestring-composite-only-collections; callers index types[0]) *)
+            if has_coll && (match before_rev with [] => true | _ => false end)
+            then Ok {| tr_composite := false; tr_types := [TNative K.TypeCustom def]; tr_reversed := [false]; tr_collections := [] |}
+            else
             lift ((fix go (ps : list (option bytes * cnode)) : res (list (tinfo * bool)) :=
                      match ps with
                      | [] => Ok []
